@@ -229,6 +229,8 @@ func (ex *Exec) entryState() *State {
 		ex.params[p.Name()] = v
 	}
 	st.galloc = I64(0)
+	st.ghost["rspos"] = I64(-1)
+	st.ghost["rsb"] = BVI(8, 0)
 	ex.entryHeap = st
 	if ex.fc != nil {
 		for _, c := range ex.fc.Requires {
@@ -299,6 +301,8 @@ func (ex *Exec) cutState(base *State, cut *Cut) *State {
 	st.defers = nil
 	tag := cut.Label
 	st.ghost["herr"] = ex.fresh("ghost_herr@"+tag, ErrSort)
+	st.ghost["rspos"] = ex.fresh("ghost_rspos@"+tag, BV(64))
+	st.ghost["rsb"] = ex.fresh("ghost_rsb@"+tag, BV(8))
 	// regions: non-input contents are unknown
 	for root := range st.store {
 		if r, ok := root.(*Region); ok {
